@@ -24,6 +24,8 @@ from .state import State
 from .vtypes import SV
 
 ROOT = os.path.dirname(os.path.dirname(os.path.abspath(__file__)))
+# runs against a scratch copy (VERIF_REPO) must not overwrite the evidence of /repo
+OUT = ROOT if os.path.realpath(os.environ.get("VERIF_REPO", "/repo")) == "/repo" else os.path.join(ROOT, "scratch-out")
 
 
 def load_index():
@@ -335,7 +337,7 @@ def run(a):
     for ob in vac:
         if ob.result["status"] == "vacuous":
             undecided.append({"obligation": ob.name, "why": "vacuity guard failed: the preconditions/hypotheses are contradictory"})
-    replay_dir = os.path.join(ROOT, "replays", pid)
+    replay_dir = os.path.join(OUT, "replays", pid)
     import shutil
     shutil.rmtree(replay_dir, ignore_errors=True)
     for ob in ded:
@@ -453,8 +455,8 @@ def run(a):
     ev = {"property_id": pid, "tier": tier, "seed": seed, "level": cfg["level"], "coverage": cov,
           "assumptions": sorted(assumptions) + cfg.get("trusted", []),
           "wall_s": round(time.time() - t0, 2), "violations": len(new_viol)}
-    os.makedirs(os.path.join(ROOT, "evidence"), exist_ok=True)
-    json.dump(ev, open(os.path.join(ROOT, "evidence", pid + ".json"), "w"), indent=1, default=str)
+    os.makedirs(os.path.join(OUT, "evidence"), exist_ok=True)
+    json.dump(ev, open(os.path.join(OUT, "evidence", pid + ".json"), "w"), indent=1, default=str)
 
     # ---- report -------------------------------------------------------------------------------------
     print("property %s tier %s: %d/%d deductive obligations discharged over %d functions (%s solver s); %d bounded stand-ins, %d cases"
